@@ -333,13 +333,15 @@ class PrimitiveSetTyped(object):
     def renameArguments(self, **kargs):
         """Rename function arguments with new names from *kargs*.
         """
+        renamed = []
         for i, old_name in enumerate(self.arguments):
             if old_name in kargs:
                 new_name = kargs[old_name]
                 self.arguments[i] = new_name
-                self.mapping[new_name] = self.mapping[old_name]
-                self.mapping[new_name].value = new_name
-                del self.mapping[old_name]
+                renamed.append((new_name, self.mapping.pop(old_name)))
+        for new_name, terminal in renamed:
+            terminal.value = new_name
+            self.mapping[new_name] = terminal
 
     def _add(self, prim):
         def addType(dict_, ret_type):
